@@ -624,6 +624,16 @@ func mutate(r *rand.Rand, root *jv) string {
 		return "replace-root"
 	}
 	o := objs[r.Intn(len(objs))]
+	if r.Intn(8) == 0 { // statement-level interval texts
+		for i := range root.obj {
+			if root.obj[i].k == "interval" || root.obj[i].k == "storageInterval" {
+				if r.Intn(2) == 0 {
+					root.obj[i].v = &jv{kind: jStr, s: intervalTexts[r.Intn(len(intervalTexts))]}
+					return "interval-text"
+				}
+			}
+		}
+	}
 	if len(o.obj) == 0 {
 		o.obj = append(o.obj, jkv{"type", &jv{kind: jStr, s: tagPool[r.Intn(len(tagPool))]}})
 		return "add-type"
